@@ -965,6 +965,35 @@ func c04GenPark(r *Rand) Fields {
 	return append(in, F("U", "", 0, 0, "E", c04Variant(r, base), 0, 0)...)
 }
 
+// "live" history: snapshot semantics made visible.  150-250 handlers under one name in one set; the
+// FIRST one, as soon as it runs for event 1, registers a new handler under the same name and removes
+// the LAST one.  The dispatcher is then still busy starting the goroutines of that long list: the new
+// handler must NOT run for event 1 and the removed one MUST (both calls start after the first handler
+// entry, i.e. after the snapshot: the interval oracle is exact); event 2 sees the new state.
+func c04GenLive(r *Rand, kind int) Fields {
+	base := r.Pick(c04Bases)
+	op := []string{"H", "B"}[kind]
+	in := F("live")
+	rid := 0
+	if kind == 0 {
+		in = append(in, F("B", c04Variant(r, base), 100, rid)...)
+		rid++
+	}
+	in = append(in, F(op, c04Variant(r, base), 1, rid)...)
+	rid++
+	n := r.Range(150, 250)
+	for j := 0; j < n; j++ {
+		in = append(in, F([]string{op, map[int]string{0: "HF", 1: "B"}[kind]}[j%2], c04Variant(r, base), 50, rid)...)
+		rid++
+	}
+	tail := rid
+	in = append(in, F(op, c04Variant(r, base), 51, tail)...)
+	rid++
+	in = append(in, F("N", "", 1, 1, "n"+op, c04Variant(r, base), 52, rid, "nR", "", tail, 0)...)
+	in = append(in, F("E", c04Variant(r, base), 0, 0, "E", c04Variant(r, base), 0, 0)...)
+	return in
+}
+
 func c04Gen(r *Rand, tier string, scale int, emit func(Fields)) {
 	if scale == 0 {
 		scale = 300
@@ -982,6 +1011,10 @@ func c04Gen(r *Rand, tier string, scale int, emit func(Fields)) {
 		}
 		if i == 8 || i == 150 {
 			live(c04GenPark(r.Fork()))
+			continue
+		}
+		if i == 9 || i == 10 || i == 151 || i == 152 {
+			live(c04GenLive(r.Fork(), i%2))
 			continue
 		}
 		live(c04GenOne(r.Fork(), i%4 == 3))
